@@ -11,6 +11,16 @@ CHECKS = {
             "The table theorems are complete for what they state (the quantifier is the 13x10 table regenerated from the Rust source "
             "on every run); legality of every write under parallel composition is decided by the Lean monitor on engine traces "
             "(exhaustive action x state matrix + seeded histories), not by an operational theorem.", "5 C02"),
+    "C09": ("Lean 4 K3 theorems over all operation sequences of the ack/retry state machine (bounded retries, redelivery shape, at-least-once, "
+            "error at the limit, closed messages stay silent) + differential correspondence of the machine with the engine on both back ends",
+            "Theorems are about Model/MsgStore.lean, a transcription of store_if / with_no_response_messages / set_message* whose comparison "
+            "constants (strict <, status selected, acted status) are regenerated from the source; the tie is the per-operation comparison of "
+            "redeliveries and stored (id,status,retry) with the real engine under a virtual clock. The production ticker and >300 stale messages are not exercised.",
+            "5 C09"),
+    "C10": ("Lean 4 K1 theorems over translated mapper tables (every field survives create->find on both back ends) + K4 refinement memQuery = "
+            "filter/sort/page spec for all well-formed queries + CRUD laws; three-way differential run (memory back end, SQLite, Lean model)",
+            "Mapper theorems are complete for the generated tables. memQuery is a hand transcription of collect.rs tied by differential runs; "
+            "that SQLite executes the generated SQL as the spec reads it is compared, not proved.", "5 C10"),
 }
 
 NOT_YET = {}
